@@ -1,13 +1,19 @@
 """C15 — fn.asyncio() under an event loop matches the asynq result.
 
-Case = {"root": LEAF, "mode0": bool, ...}.  AST:
+Case = {"root": LEAF, "mode0": bool, "probes": [LEAF], ...}.  The caller coroutine does
+`await root.asyncio(arg)` in its own context (flag mode0), keeps running, looks at is_asyncio_mode() and
+then makes the plain synchronous calls g(arg) listed in "probes".  AST:
 
   V (a value)   None | int | {"x": i} a fresh VErr(i) instance (Exception subclass) used as DATA
                 | {"bx": i} a fresh VBase(i) instance (BaseException subclass) used as data
   S (what a yield statement yields)
       None | {"c": V} ConstFuture(V) | {"bad": n} the int n | {"t": FN} | {"px": PX}
       | {"tuple": [S]} | {"list": [S]} | {"dict": [[key, S], ...]}
-  FN  {"id", "kind": gen|plain|method, "afn": none|twin|native, "delay", "allow", "body": [STMT]}
+  FN  {"id", "kind": gen|plain|method, "afn": none|twin|native, "delay", "allow", "body": [STMT], "fn": key (optional)}
+      "id" names the ACTIVATION (it is the argument of the call); "fn" names the FUNCTION OBJECT: all nodes with the
+      same key are calls of one decorated function (same kind/afn/allow), which finds its statement list by its
+      argument - recursion, a function called again by its callees, several activations in one yielded list.
+      Without "fn" the node has a function object of its own.
   PX  {"id", "kind": fn|method, "ret": {"c": V} | {"t": FN}}          an @async_proxy() function
   STMT {"y": S, "site": n}            acc.append((yield S))
        {"try": [STMT], "exc": [STMT]} try: ... except Exception as e: acc.append({-1: id(e)}); ...
@@ -38,18 +44,32 @@ RULE = ("batch-free tree programs: 1..30 @asynq() functions / methods / plain (n
         "ConstFuture(exc), a proxy returning it, `return exc` from a generator / plain function / native asyncio_fn, an except "
         "clause that keeps the caught instance and returns it (`return acc[-1]`), Exception and BaseException subclasses, as "
         "members of tuple/list/dict yields (about a quarter of all cases) and as bare yields; bodies return the accumulator, a bare "
-        "value or the last thing received; distinct = different canonical AST; non-trivial = a nested structure or an "
-        "except clause that is reached statically")
+        "value or the last thing received; FUNCTION IDENTITY: call nodes are activations, and in about 40% of the cases several "
+        "activations are calls of ONE decorated function object (post-hoc grouping of nodes with the same kind/asyncio_fn/"
+        "allow_sync_call in a third of the random cases; 140 directed recursion cases: 1..3 functions calling themselves / each "
+        "other to depth 1..5 through bare yields, list/tuple/dict members, two calls per level, a proxy or an intermediate "
+        "function, with try/except at some levels, bottoms that return or raise) - a function is re-entered while an outer "
+        "activation of it is still running in about 30% of all cases (nesting 2..5+); THE CALLER GOES ON: in about half of the cases "
+        "the awaiting coroutine makes 1-2 plain synchronous calls of @asynq()/@async_proxy() functions after the await (a third of "
+        "them of a function that is also used inside the awaited tree); distinct = different canonical AST; non-trivial = a nested "
+        "structure or an except clause that is reached statically")
 TRUSTED = ["the asyncio event loop (asyncio.run, ensure_future, asyncio.wait, contextvars copy per Task) is exercised, not modelled",
            "harness/props/c15.py emit: JSON AST -> Gallina resumption (CPS of the statement list); the same AST is interpreted "
            "by real generator closures in harness/impl/c15_impl.py"]
-EXPLANATION = ("Eight Coq theorems (props/C15.v, closed under the global context) about Asyncio.v: drive/resolve/await_leaf/"
+EXPLANATION = ("Eleven Coq theorems (props/C15.v, closed under the global context) about Asyncio.v: drive/resolve/await_leaf/"
                "call_asyncio model decorators.py:109-140,170-230,290-308 and asynq_to_async.py:24-90; eval/unwrap model what the "
                "scheduler computes for a batch-free tree program; values include exception instances used as data (VExc: a member "
                "that returned an exception object succeeded - exception_value_is_data).  Programs are HOAS resumptions (continuations are arbitrary "
                "Gallina functions outcome -> prog), so the theorems hold for every finite program of the class, not for a syntax.  "
+               "driveH/run_asyncioH refine them with an explicit heap of AsyncioMode objects (shared by all Tasks, unlike the context) "
+               "and the code's choice of one new object per activation (reentrant_mode_confined: the refined run is the abstract "
+               "run for every program, whatever function its activations belong to - recursion, re-entrance through callees, parallel "
+               "activations - and no run touches an object that existed before; caller_continues: after the await a plain "
+               "synchronous call of the caller runs its callee and delivers the callee's own outcome).  "
                "Each generated case is run as root(arg) and as `await root.asyncio(arg)` under asyncio.run in the pure and the "
-               "Cython build; both outcomes, the flag after the await and the multiset of body-start/completion/sync-call events "
+               "Cython build (activations of one function share one real decorated object, which looks its body up by its argument); "
+               "both outcomes, the flag after the await, the outcome/flag/events of every plain synchronous call the caller makes "
+               "afterwards and the multiset of body-start/completion/sync-call events "
                "are compared with Asyncio.run_case evaluated by vm_compute; the monitors encode the statement directly on the "
                "implementation's own log (real execution order).")
 ASSUMPTIONS = [
@@ -59,6 +79,8 @@ ASSUMPTIONS = [
     "no result(), ErrorFuture, lazy Future, batches, shared handles; an @async_proxy() function returns a future (does not raise)",
     "an explicit asyncio_fn is assumed to agree with the asynq function (hypothesis `agree` of the theorems; built so by the generator)",
     "raised exceptions are Exception subclasses (BaseException subclasses occur only as values, never raised)",
+    "the caller awaits one root at a time (two top-level .asyncio() calls of the same function running concurrently from contexts "
+    "with the flag off are not generated); proxies are not shared between activations",
 ]
 
 # ------------------------------------------------------------------------------------------ AST helpers
@@ -201,7 +223,58 @@ class _Emit:
 
 def model_input(c):
     e = _Emit()
-    return "%s %s" % (e.leaf(c["root"]), "true" if c["mode0"] else "false")
+    probes = "; ".join("(%s, %s)" % ("true" if leaf_node(pr).get("allow") else "false", e.leaf(pr)) for pr in c.get("probes", []))
+    return "%s [%s] %s" % (e.leaf(c["root"]), probes, "true" if c["mode0"] else "false")
+
+
+def mkcase(root, mode0, probes=(), meta=None):
+    probes = list(probes)
+    return {"root": root, "mode0": mode0, "probes": probes,
+            "tree": {"root": root, "mode0": mode0, "probes": probes}, "meta": meta or {}}
+
+
+def all_nodes(c):
+    """every FN/PX node of the case: the root's tree, then the probes' trees"""
+    for leaf in [c["root"]] + list(c.get("probes", [])):
+        yield from sub_fns(leaf)
+
+
+def fn_key(n):
+    return n.get("fn", ("own", n["id"]))
+
+
+def sharing_profile(c):
+    """(some function object has >= 2 activations, max number of activations of one function that are nested in each
+    other (1 = never re-entered), a probe calls a function that is also used inside the root's tree)"""
+    count = {}
+    for n in all_nodes(c):
+        if "body" in n:
+            count[fn_key(n)] = count.get(fn_key(n), 0) + 1
+    shared = any(v > 1 for v in count.values())
+
+    def depth(leaf, active):
+        n = leaf_node(leaf)
+        best = 0
+        if "body" in n:
+            k = fn_key(n)
+            active = dict(active)
+            active[k] = active.get(k, 0) + 1
+            best = active[k]
+            for st in walk_stmts(n["body"]):
+                subs = []
+                if "y" in st:
+                    subs = [x for x in walk_struct(st["y"]) if x is not None and ("t" in x or "px" in x)]
+                elif "sync" in st:
+                    subs = [st["sync"]]
+                for x in subs:
+                    best = max(best, depth(x, active))
+        elif "t" in n["ret"]:
+            best = depth(n["ret"], active)
+        return best
+    nest = depth(c["root"], {}) if shared else 1
+    inroot = {fn_key(n) for n in sub_fns(c["root"]) if "body" in n and "fn" in n}
+    pshare = any("body" in n and fn_key(n) in inroot for pr in c.get("probes", []) for n in sub_fns(pr))
+    return shared, nest, pshare
 
 
 # ------------------------------------------------------------------------------------------ generator
@@ -357,9 +430,172 @@ def gen_case(rng):
         root = {"px": g.px(depth)}
     else:
         root = {"t": g.fn(depth)}
-    c = {"root": root, "mode0": rng.random() < 0.15, "meta": {"malformed": malformed, "sync": sync, "xval": xp > 0}}
-    c["tree"] = {"root": root, "mode0": c["mode0"]}
+    return mkcase(root, rng.random() < 0.15, (), {"malformed": malformed, "sync": sync, "xval": xp > 0})
+
+
+# ---- the function-identity dimension: which activations are calls of the same function object, and what the caller
+# ---- does after the await
+def _max_id(c):
+    return max(n["id"] for n in all_nodes(c))
+
+
+def add_probes(c, rng, n=None):
+    """the caller's plain synchronous calls after the await: small yield-free callees (function / method / plain / proxy)"""
+    g = _Gen(rng, False, False, 3, rng.choice([0, 0, 0.3]))
+    g.nid = _max_id(c)
+    g.neid = 700
+    for _ in range(n if n is not None else rng.choice([1, 1, 2])):
+        c["probes"].append(g.call_leaf(0, callee=True))
+    c["tree"]["probes"] = c["probes"]
+
+
+def share_functions(c, rng, eager=False):
+    """post-hoc: put call nodes with the same (kind, afn, allow) into common function objects - nested ones
+    (recursion / re-entered through a callee), siblings of one yield, cousins, the probes' callees"""
+    groups = {}
+    for n in all_nodes(c):
+        if "body" in n:
+            groups.setdefault((n["kind"], n["afn"], bool(n.get("allow"))), []).append(n)
+    k = 0
+    for sig in sorted(groups, key=str):
+        nodes = groups[sig]
+        if len(nodes) < 2:
+            continue
+        ncls = 1 if eager else rng.choice([1, 1, 2, 3])
+        for n in nodes:
+            if rng.random() < (0.95 if eager else 0.8):
+                n["fn"] = "s%d_%d" % (k, rng.randrange(ncls))
+        k += 1
+
+
+def gen_rec_case(rng):
+    """directed: a group of 1..3 functions that call each other / themselves to depth 1..5 (fact, fib, countdown-then-raise,
+    mutual recursion), links as bare yields or inside list/tuple/dict, behind a proxy, with try/except at some levels"""
+    nfun = rng.choice([1, 1, 1, 2, 2, 3])
+    depth = rng.choice([1, 2, 2, 3, 3, 4, 5])
+    kind = rng.choice(["gen", "gen", "gen", "method"])
+    afn = rng.choice(["none", "none", "none", "none", "twin"])
+    xp = rng.choice([0, 0, 0, 0.3])
+    st = {"id": 0, "site": 0, "eid": 0, "budget": rng.choice([6, 10, 16, 24])}
+
+    def val():
+        if xp and rng.random() < xp:
+            st["eid"] += 1
+            return {"x": 300 + st["eid"]}
+        return None if rng.random() < 0.15 else rng.randrange(0, 40)
+
+    def site():
+        st["site"] += 1
+        return st["site"]
+
+    def eid():
+        st["eid"] += 1
+        return 300 + st["eid"]
+
+    def other(body):
+        st["id"] += 1
+        return {"t": {"id": st["id"], "kind": rng.choice(["gen", "plain", "method"]), "afn": "none", "delay": 0, "allow": False, "body": body}}
+
+    def act(level, f):
+        st["id"] += 1
+        st["budget"] -= 1
+        node = {"id": st["id"], "kind": kind, "afn": afn, "delay": 0, "allow": False, "body": [], "fn": "r%d" % f}
+        if level >= depth or st["budget"] <= 0:
+            x = rng.random()
+            node["body"] = ([] if x < 0.25 else [{"retv": [val()]}] if x < 0.5 else [{"raise": eid()}] if x < 0.8
+                            else [{"push": val()}, {"y": {"c": val()}, "site": site()}])
+            return node
+        body = []
+        if rng.random() < 0.3:
+            body.append(rng.choice([{"push": val()}, {"y": {"c": val()}, "site": site()}]))
+        for _ in range(rng.choice([1, 1, 1, 2])):
+            nxt = lambda: {"t": act(level + 1, rng.randrange(nfun))}
+            link = rng.choice(["bare", "bare", "bare", "list", "tuple", "dict", "two", "two", "px", "via"])
+            if link == "bare":
+                y = nxt()
+            elif link == "list":
+                y = {"list": [nxt()] + ([{"c": val()}] if rng.random() < 0.4 else [])}
+            elif link == "tuple":
+                y = {"tuple": ([other([{"raise": eid()}] if rng.random() < 0.4 else [])] if rng.random() < 0.5 else []) + [nxt()]}
+            elif link == "dict":
+                y = {"dict": [[rng.randrange(0, 5), nxt()], [7, {"list": [nxt()] if rng.random() < 0.5 else []}]]}
+            elif link == "two":
+                y = {rng.choice(["tuple", "list"]): [nxt(), nxt()]}
+            elif link == "px":
+                st["id"] += 1
+                pid = st["id"]
+                y = {"px": {"id": pid, "kind": rng.choice(["fn", "method"]), "ret": nxt()}}
+            else:
+                # re-entered through a callee that is a different function
+                st["id"] += 1
+                mid = st["id"]
+                y = {"t": {"id": mid, "kind": "gen", "afn": "none", "delay": 0, "allow": False,
+                           "body": [{"y": nxt() if rng.random() < 0.6 else {"list": [nxt()]}, "site": site()}, {"retlast": 1}]}}
+            stmt = {"y": y, "site": site()}
+            if rng.random() < 0.3:
+                stmt = {"try": [stmt], "exc": [{"y": {"c": val()}, "site": site()}] if rng.random() < 0.5 else []}
+                if rng.random() < 0.3:
+                    stmt["keep"] = True
+            body.append(stmt)
+        x = rng.random()
+        if x < 0.2:
+            body.append({"retlast": 1})
+        elif x < 0.3:
+            body.append({"retv": [val()]})
+        elif x < 0.36:
+            body.append({"raise": eid()})
+        node["body"] = body
+        return node
+
+    root = {"t": act(0, 0)}
+    if rng.random() < 0.08:
+        st["id"] += 1
+        root = {"px": {"id": st["id"], "kind": "fn", "ret": root}}
+    c = mkcase(root, rng.random() < 0.15, (), {"rec": True})
+    if rng.random() < 0.85:
+        add_probes(c, rng)
+        if rng.random() < 0.35:
+            # the caller calls (synchronously) a function of the recursive group itself: a yield-free activation of it
+            pr = c["probes"][0]
+            if "t" in pr:
+                pr["t"].update(kind=kind, afn=afn, delay=0, allow=False, fn="r0")
     return c
+
+
+def _exhaustive_rec():
+    """thorough tier: every small recursion shape - depth x link x bottom x where it is caught x 1|2 functions x kind x flag"""
+    cases = []
+    for depth in (1, 2, 3, 4):
+        for link in ("bare", "list", "tuple", "dict", "two"):
+            for bottom in ("ret", "raise"):
+                for caught in ("no", "root", "mid"):
+                    for nfun in (1, 2):
+                        for kind in ("gen", "method"):
+                            for mode0 in (False, True):
+                                ids = iter(range(1, 200))
+                                sites = iter(range(1, 200))
+
+                                def act(level, budget=[14]):
+                                    i = next(ids)
+                                    budget[0] -= 1
+                                    node = _fn(i, [], kind)
+                                    node["fn"] = "r%d" % (level % nfun)
+                                    if level >= depth or budget[0] <= 0:
+                                        node["body"] = [{"raise": 400 + i}] if bottom == "raise" else [{"retv": [i]}]
+                                        return node
+                                    nx = lambda: {"t": act(level + 1)}
+                                    y = (nx() if link == "bare" else {"list": [nx()]} if link == "list" else
+                                         {"tuple": [{"c": 1}, nx()]} if link == "tuple" else {"dict": [[3, nx()]]} if link == "dict"
+                                         else {"tuple": [nx(), nx()]})
+                                    stmt = {"y": y, "site": next(sites)}
+                                    if (caught == "root" and level == 0) or (caught == "mid" and level == 1):
+                                        stmt = {"try": [stmt], "exc": []}
+                                    node["body"] = [stmt]
+                                    return node
+                                root = {"t": act(0, [14])}
+                                probe = {"t": _fn(next(ids), [{"retv": [5]}], "gen")}
+                                cases.append(mkcase(root, mode0, [probe], {"exhaustive": "rec"}))
+    return cases
 
 
 def _exhaustive_small():
@@ -405,16 +641,25 @@ def _exhaustive_small():
             st = {"y": s, "site": 1}
             body = [{"try": [st], "exc": [{"y": leaf(next(ids), False), "site": 2}]}] if caught else [st]
             root = {"t": {"id": 1, "kind": "gen", "afn": "none", "delay": 0, "allow": False, "body": body}}
-            cases.append({"root": root, "mode0": False, "tree": {"root": root, "mode0": False}, "meta": {"exhaustive": True}})
+            cases.append(mkcase(root, False, (), {"exhaustive": True}))
     return cases
 
 
 def gen_cases(rng, tier):
     n = 500 if tier == "quick" else 12000
-    cs = [gen_case(rng) for _ in range(n)]
+    cs = [gen_case(rng) for _ in range(n)]          # (same PRNG stream as before the function-identity dimension)
+    # decorate a part of them afterwards: shared function objects, plain synchronous calls after the await
+    for c in cs:
+        x = rng.random()
+        if x < 0.4:
+            add_probes(c, rng)
+        if x < 0.25 or x > 0.85:
+            share_functions(c, rng, eager=x > 0.93)
+    nrec = 140 if tier == "quick" else 3000
+    cs = cs + [gen_rec_case(rng) for _ in range(nrec)]
     if tier != "quick":
-        cs = _exhaustive_small() + cs
-    return cs
+        cs = _exhaustive_small() + _exhaustive_rec() + cs
+    return [c for c in cs if _valid(c)]
 
 
 # ------------------------------------------------------------------------------------------ corpus
@@ -422,8 +667,14 @@ def _fn(i, body, kind="gen", afn="none", delay=0, allow=False):
     return {"id": i, "kind": kind, "afn": afn, "delay": delay, "allow": allow, "body": body}
 
 
-def _case(root, mode0=False):
-    return {"root": root, "mode0": mode0, "tree": {"root": root, "mode0": mode0}, "meta": {"corpus": True}}
+def _case(root, mode0=False, probes=()):
+    return mkcase(root, mode0, probes, {"corpus": True})
+
+
+def _rfn(i, key, body, kind="gen", afn="none"):
+    n = _fn(i, body, kind, afn)
+    n["fn"] = key
+    return n
 
 
 CORPUS = [
@@ -475,6 +726,23 @@ CORPUS = [
                          "exc": [{"y": {"list": [{"c": {"x": 108}}, {"t": _fn(4, [{"retv": [{"bx": 104}]}], "method")}]}, "site": 2}],
                          "keep": True},
                         {"retlast": 1}])}),
+    # ---- re-entered functions (all activations with the same "fn" key are calls of ONE decorated function) + the caller goes on
+    # fact(3)-like: f awaits f awaits f, bare yields (awaited in the caller's own context); afterwards the caller calls g(arg)
+    _case({"t": _rfn(1, "f", [{"y": {"t": _rfn(2, "f", [{"y": {"t": _rfn(3, "f", [{"retv": [1]}])}, "site": 2}])}, "site": 1}])},
+          probes=[{"t": _fn(4, [{"push": 1}], "plain")}]),
+    # countdown that finally raises, through a list and a dict; the caller then calls the same function synchronously
+    _case({"t": _rfn(1, "f", [{"y": {"list": [{"t": _rfn(2, "f", [{"y": {"dict": [[0, {"t": _rfn(3, "f", [{"raise": 103}])}]]}, "site": 2}])}]},
+                               "site": 1}])},
+          probes=[{"t": _rfn(4, "f", [{"retv": [9]}])}]),
+    # fib-like (two recursive calls in a tuple) of a method, re-entered through a different function g (f -> g -> f), one
+    # branch raises and is caught half way; started with the flag off - and the same started inside asyncio mode
+    _case({"t": _rfn(1, "f", [{"y": {"tuple": [{"t": _rfn(2, "f", [{"retv": [1]}], "method")},
+                                                {"t": _fn(3, [{"try": [{"y": {"t": _rfn(4, "f", [{"y": {"t": _rfn(5, "f", [{"raise": 105}], "method")},
+                                                                                                  "site": 3}], "method")}, "site": 2}],
+                                                               "exc": []}])}]}, "site": 1}], "method")},
+          probes=[{"t": _fn(6, [], "method")}, {"px": {"id": 7, "kind": "fn", "ret": {"c": 4}}}]),
+    _case({"t": _rfn(1, "f", [{"y": {"t": _rfn(2, "f", [{"y": {"t": _rfn(3, "f", [])}, "site": 2}])}, "site": 1}])}, mode0=True,
+          probes=[{"t": _fn(4, [{"push": 1}])}]),
 ]
 
 
@@ -521,7 +789,7 @@ def exc_value_profile(c):
 
 
 def canon(c):
-    return json.dumps({"root": c["root"], "mode0": c["mode0"]}, sort_keys=True)
+    return json.dumps({"root": c["root"], "mode0": c["mode0"], "probes": c.get("probes", [])}, sort_keys=True)
 
 
 def nontrivial(c):
@@ -538,7 +806,9 @@ def nontrivial(c):
 def distribution(cases):
     d = {"calls": {}, "root": {}, "kinds": {}, "afn": {}, "struct_depth": {}, "mode0": 0, "malformed": 0, "sync": 0,
          "with_try": 0, "with_failure": 0, "with_proxy": 0, "with_exception_value": 0,
-         "collection_member_completes_with_exception_value": 0, "bare_value_return": 0}
+         "collection_member_completes_with_exception_value": 0, "bare_value_return": 0,
+         "shared_function_object": 0, "function_reentered_while_running": {}, "with_probe_after_await": 0,
+         "probe_calls_function_used_in_tree": 0}
 
     def sdepth(s):
         if s is None or not any(k in s for k in ("tuple", "list", "dict")):
@@ -574,6 +844,12 @@ def distribution(cases):
         ax, ic = exc_value_profile(c)
         d["with_exception_value"] += ax
         d["collection_member_completes_with_exception_value"] += ic
+        sh, nest, psh = sharing_profile(c)
+        d["shared_function_object"] += sh
+        if nest >= 2:
+            d["function_reentered_while_running"][str(min(nest, 5))] = d["function_reentered_while_running"].get(str(min(nest, 5)), 0) + 1
+        d["with_probe_after_await"] += 1 if c.get("probes") else 0
+        d["probe_calls_function_used_in_tree"] += psh
         d["bare_value_return"] += any("retv" in st or "retlast" in st for nd in nodes if "body" in nd for st in walk_stmts(nd["body"]))
     return d
 
@@ -584,14 +860,16 @@ def _sorted_events(evs):
 
 
 def _project(out):
-    seq_out, seq_ev, aio = out[""]
+    seq_out, seq_ev, aio, probes = out[""]
     aio_out, aio_flag, aio_ev = aio[""]
-    return [seq_out, _sorted_events(seq_ev), aio_out, aio_flag, _sorted_events(aio_ev)]
+    pr = [[x[""][0], x[""][1], _sorted_events(x[""][2])] for x in probes]
+    return [seq_out, _sorted_events(seq_ev), aio_out, aio_flag, _sorted_events(aio_ev), pr]
 
 
 def compare(c, m, io):
     a, b = _project(m), _project(io["out"])
-    names = ["asynq outcome", "asynq body/done/sync events", "asyncio outcome", "flag after the await", "asyncio body/done/sync events"]
+    names = ["asynq outcome", "asynq body/done/sync events", "asyncio outcome", "flag after the await", "asyncio body/done/sync events",
+             "the caller's plain synchronous calls after the await (outcome, flag, events)"]
     for n, x, y in zip(names, a, b):
         if x != y:
             return "%s: model %s, implementation %s" % (n, json.dumps(x)[:300], json.dumps(y)[:300])
@@ -735,14 +1013,14 @@ def monitors(c, io, build):
                 break
         if first is not None:
             if got != {"Err": [first]}:
-                what = "value" if "Ok" in got else "exception-object-returned-by-a-member" if got["Err"][0] in held else "other-exception"
+                what = "value" if "Ok" in got else "exception-object-returned-by-a-member" if (not isinstance(got["Err"][0], dict) and got["Err"][0] in held) else "other-exception"
                 fs.append(dict(clause="first-error-in-order", site="%s:%s-instead-of-first-failure" % (skind, what),
                                msg="yield site %d of call %s: the first failure in structure order is %s but the yield delivered %s" % (
                                    ev[2], ev[1], first, json.dumps(got)[:160])))
             continue
         if "Err" in got:
             # nothing yielded here failed.  Is the raised instance one that a member *returned* (its value)?
-            if got["Err"][0] in held:
+            if (not isinstance(got["Err"][0], dict) and got["Err"][0] in held):
                 fs.append(dict(clause="first-error-in-order", site="%s:exception-object-returned-by-a-member-raised-at-the-yield" % skind,
                                msg="yield site %d of call %s raised %s: no member failed, the raised instance is the *value* a member "
                                    "completed with (members' exception values: %s)" % (ev[2], ev[1], json.dumps(got)[:120], sorted(held))))
@@ -798,6 +1076,47 @@ def monitors(c, io, build):
         if ev[0] == "body" and ev[2] != "false":
             fs.append(dict(clause="mode-confined", site="flag-on-inside-scheduler-body",
                            msg="body of call %s ran on the scheduler with is_asyncio_mode() true" % ev[1]))
+    # ... and it is still on when a converted body goes on after a yield (a nested await must not switch it off under its
+    # caller), whatever was awaited there - other activations of the same function included
+    shared, nest, _ = sharing_profile(c)
+    re_tag = "re-entered-function" if nest >= 2 else "shared-function" if shared else "distinct-functions"
+    for ev in aio["log"]:
+        if ev[0] == "resume" and len(ev) > 4 and ev[1] not in native and ev[4] != "true":
+            fs.append(dict(clause="mode-confined", site="flag-off-inside-converted-body-after-a-yield:%s" % re_tag,
+                           msg="call %s was resumed at yield site %s under .asyncio() with is_asyncio_mode() false" % (ev[1], ev[2])))
+            break
+    for ev in seq["log"]:
+        if ev[0] == "resume" and len(ev) > 4 and ev[4] != "false":
+            fs.append(dict(clause="mode-confined", site="flag-on-inside-scheduler-body-after-a-yield",
+                           msg="call %s was resumed at yield site %s on the scheduler with is_asyncio_mode() true" % (ev[1], ev[2])))
+            break
+    # the caller keeps running after the await: with the flag off before the await, asyncio mode is over - a plain
+    # synchronous call of an @asynq() function runs (no RuntimeError); with the flag on before, it is still refused
+    for k, pr in enumerate(aio.get("probes", [])):
+        node = leaf_node(c["probes"][k])
+        kinds = [ev[1] for ev in pr["log"] if ev[0] == "sync"]
+        kind = kinds[-1] if kinds else "none"
+        what = "proxy" if "ret" in node else node["kind"]
+        if aio["before"] == "false":
+            if pr["flag"] != "false":
+                fs.append(dict(clause="mode-confined", site="after-%s:flag-on-after-a-plain-synchronous-call-of-the-caller" % okind,
+                               msg="is_asyncio_mode() is %s in the caller after its synchronous call number %d" % (pr["flag"], k)))
+            if kind != "SRan":
+                fs.append(dict(clause="mode-confined", site="after-%s:plain-synchronous-call-after-the-await-%s:%s" % (
+                    okind, {"SRefused": "refused", "SAllowed": "skipped"}.get(kind, kind), what),
+                               msg="the caller started outside asyncio mode; after `await root.asyncio()` (%s) its plain synchronous call "
+                                   "of call %s did not run the callee: %s, outcome %s" % (okind, node["id"], kind, json.dumps(pr["out"])[:160])))
+        else:
+            if kind == "SRan" or any(ev[0] == "body" for ev in pr["log"]):
+                fs.append(dict(clause="sync-call-refused", site="sync-call-ran-in-asyncio-mode",
+                               msg="the caller is inside asyncio mode; its plain synchronous call of call %s after the await ran the callee" % node["id"]))
+            elif kind == "SOther":
+                fs.append(dict(clause="sync-call-refused", site="sync-call-raised-other-exception",
+                               msg="a plain synchronous call inside asyncio mode raised something other than RuntimeError"))
+            elif kind == "SAllowed" and not node.get("allow"):
+                fs.append(dict(clause="sync-call-refused", site="no-RuntimeError-without-allow_sync_call",
+                               msg="the caller is inside asyncio mode; its plain synchronous call of call %s returned without RuntimeError "
+                                   "although allow_sync_call is off" % node["id"]))
 
     # (7) while the flag is on, a plain synchronous call of an @asynq() function raises RuntimeError
     if sync:
@@ -844,16 +1163,31 @@ def _clone(x):
 
 
 def shrink(c):
-    base = {"root": c["root"], "mode0": c["mode0"]}
     out = []
+    probes0 = c.get("probes", [])
 
-    def emit(root, mode0):
+    def emit(root, mode0, probes=None):
         if root is None or not ("t" in root or "px" in root):
             return
-        out.append({"root": root, "mode0": mode0, "tree": {"root": root, "mode0": mode0}, "meta": {"shrunk": True}})
+        out.append(mkcase(root, mode0, _clone(probes0 if probes is None else probes), {"shrunk": True}))
 
     if c["mode0"]:
         emit(_clone(c["root"]), False)
+    # fewer plain synchronous calls after the await
+    if probes0:
+        emit(_clone(c["root"]), c["mode0"], [])
+        if len(probes0) > 1:
+            for i in range(len(probes0)):
+                emit(_clone(c["root"]), c["mode0"], probes0[:i] + probes0[i + 1:])
+    # every activation gets a function object of its own / one function class at a time is dissolved
+    keys = sorted({n["fn"] for n in all_nodes(c) if "fn" in n})
+    for drop in ([None] + keys if len(keys) > 1 else [None] if keys else []):
+        r2, p2 = _clone(c["root"]), _clone(probes0)
+        for leaf in [r2] + p2:
+            for n in sub_fns(leaf):
+                if "fn" in n and (drop is None or n["fn"] == drop):
+                    del n["fn"]
+        emit(r2, c["mode0"], p2)
     # promote any sub-call to the root
     seen = 0
     for n in list(sub_fns(c["root"]))[1:]:
@@ -965,8 +1299,21 @@ def shrink(c):
 
 
 def _valid(c):
-    """plain functions and native coroutines have yield-free bodies"""
-    for n in sub_fns(c["root"]):
+    """plain functions and native coroutines have yield-free bodies; the activations of one function object agree on
+    what the function is (kind, asyncio_fn, allow_sync_call); activation ids are unique"""
+    sigs = {}
+    ids = set()
+    for n in all_nodes(c):
+        if n["id"] in ids:
+            return False
+        ids.add(n["id"])
+        if "fn" in n:
+            if "body" not in n:
+                return False
+            sig = (n["kind"], n["afn"], bool(n.get("allow")))
+            if sigs.setdefault(n["fn"], sig) != sig:
+                return False
+    for n in all_nodes(c):
         if "body" in n and (n["kind"] == "plain" or n["afn"] == "native"):
             if any("y" in st for st in walk_stmts(n["body"])):
                 return False
